@@ -452,6 +452,7 @@ PROPS = {
     },
     "C11": {
         "theorems": {
+            "Solstat.Props.C18h": ["runs_append", "last_run_decides", "history_irrelevant", "failing_run_keeps_report"],
             "Solstat.Props.C11Sections": ["signatures_as_reviewed"],
             "Solstat.Props.C11": ["rb_section_lines", "rb_entries", "rb_block", "rb_blocksOf", "readBack_blocks", "triples_canon_perm",
                                   "rb_severityPart", "triples_by_severity", "C11_vulnerability",
@@ -487,6 +488,7 @@ PROPS = {
     },
     "C13": {
         "theorems": {
+            "Solstat.Props.C18h": ["runs_append", "last_run_decides", "history_irrelevant", "failing_run_keeps_report"],
             "Solstat.Props.Sort": ["sortBy_perm", "sortBy_sorted", "sortBy_eq_of_perm", "fileLe_preorder", "fileLe_antisymm", "sortFiles_perm"],
             "Solstat.Props.C13": ["canon_perm", "canon_files_perm", "optimizationReport_perm", "qaReport_perm", "vulnerabilityReport_perm",
                                   "all_variants_known", "fullReport_perm"],
@@ -555,6 +557,7 @@ PROPS = {
     },
     "C18": {
         "theorems": {
+            "Solstat.Props.C18h": ["runs_append", "last_run_decides", "history_irrelevant", "failing_run_keeps_report"],
             "Solstat.Props.C18": ["run_frame", "run_failure_writes_nothing", "run_writes_render", "old_report_overwritten",
                                   "report_name_ineligible", "effects_complete"],
             "Solstat.Props.C16": ["ineligible_inert", "ineligible_cannot_fail"],
